@@ -72,7 +72,12 @@ class SRun:
         lo.update(scn.get("loopopts") or {})
         cfg["loopopts"] = lo
         self.scn = scn
-        self.h = HState(cfg, prefix=prefix)
+        sc = cfg.get("state_class")
+        if sc:
+            mod, name = sc.split(":")
+            self.h = getattr(importlib.import_module(mod), name)(cfg, prefix=prefix)
+        else:
+            self.h = HState(cfg, prefix=prefix)
         self.fails: list[Failure] = []
         self.views: dict = {}
         self.inflight: dict = {}
@@ -138,7 +143,8 @@ class SRun:
         w = h.w
         cmds = {sn: list(evs) for sn, evs in self.scn["concurrent"].items()}
         for sn in cmds:
-            h.sess(sn)
+            if sn not in w.sessions:
+                h.sess(sn)
         model0 = h.model.clone()
         for sn, ms in model0.sess.items():
             # sessions enter the concurrent phase synchronised (the prelude ends with quiescence)
@@ -147,6 +153,8 @@ class SRun:
         self.fetched = {}
         self.cur_idx = {}
         for sn, s in w.sessions.items():
+            if getattr(s, "pop3", False):
+                continue
             ms = h.model.session(sn)
             self.views[sn] = list(ms.view) if ms.selected else []
             if not ms.selected:
@@ -158,15 +166,31 @@ class SRun:
         t_sent: dict = {}
         t_done: dict = {}
 
+        pop_mark: dict = {}
+
+        def answered(sn, i):
+            if (sn, i) in pop_mark:  # POP3: one reply per command line (or the session ends)
+                s_ = w.sessions.get(sn)
+                return s_ is None or s_.task.done() or (len(s_.out) > pop_mark[(sn, i)] and s_.out.endswith(b"\r\n"))
+            return tags[(sn, i)] in self.done_tags[sn]
+
         def can_feed(sn):
             i = nxt[sn]
             if i >= len(cmds[sn]) or w.sessions[sn].task.done():
                 return False
-            return i == 0 or tags[(sn, i - 1)] in self.done_tags[sn]
+            return i == 0 or answered(sn, i - 1)
 
         def feed(sn):
             i = nxt[sn]
             ev = cmds[sn][i]
+            if ev["op"] == "pop":
+                h.log(f"C[{sn}]: {ev['line']}")
+                pop_mark[(sn, i)] = len(w.sessions[sn].out)
+                tags[(sn, i)] = f"pop{i}"
+                w.sessions[sn].feed_frame(ev["line"].encode("latin-1"))
+                t_sent[(sn, i)] = w.loop.time()
+                nxt[sn] += 1
+                return
             text = render(h, sn, ev)
             h.log(f"C[{sn}]: {text if isinstance(text, str) else text[:60]}")
             self.kinds[sn] = (ev["op"], ev.get("uid", False))
@@ -177,8 +201,18 @@ class SRun:
             t_sent[(sn, i)] = w.loop.time()
             nxt[sn] += 1
 
+        env_events = list(self.scn.get("env", []))
+        env_fired = [False] * len(env_events)
+
+        def fire_env(k):
+            env_fired[k] = True
+            h.apply(dict(env_events[k]))  # the delivery agent acts now (on disk, and in the reference model)
+
         def extra():
-            return [(f"In{sn}", (lambda sn=sn: feed(sn)), True) for sn in sorted(cmds) if can_feed(sn)]
+            ev = [(f"In{sn}", (lambda sn=sn: feed(sn)), True) for sn in sorted(cmds) if can_feed(sn)]
+            # environment events are never the default: firing one is a deviation
+            ev += [(f"Env{k}", (lambda k=k: fire_env(k)), False) for k in range(len(env_events)) if not env_fired[k]]
+            return ev
 
         def all_done():
             for sn in cmds:
@@ -186,7 +220,7 @@ class SRun:
                     continue
                 if nxt[sn] < len(cmds[sn]):
                     return False
-                if tags[(sn, nxt[sn] - 1)] not in self.done_tags[sn]:
+                if not answered(sn, nxt[sn] - 1):
                     return False
             return True
 
@@ -206,8 +240,14 @@ class SRun:
             s = w.sessions[sn]
             for i, ev in enumerate(cmds[sn]):
                 tg = tags.get((sn, i))
-                r = s.tagged(tg) if tg else None
                 key = f"{sn}{i}"
+                if ev["op"] == "pop":
+                    out_ = s.out[pop_mark.get((sn, i), 0):]
+                    results[key] = ("OK",) if out_.startswith(b"+OK") else (("REFUSED",) if out_.startswith(b"-ERR") else ("NONE",))
+                    if results[key] == ("NONE",) and not s.task.done():
+                        self.fail("C10.command-never-answered", {"op": "pop:" + ev["line"].split()[0], "parked": _parked(w)}, "a reply", None)
+                    continue
+                r = s.tagged(tg) if tg else None
                 if r is None:
                     if not s.task.done():
                         self.fail("C10.command-never-answered", {"op": ev["op"], "uid": ev.get("uid", False), "parked": _parked(w)},
@@ -231,11 +271,11 @@ class SRun:
         # answered only after ~the command watchdog (120 s) was starved
         if w.loop.time() - t0 > 60.0:
             self.fail("C10.answered-by-watchdog", {"parked": _parked(w)}, "< 60 s virtual", w.loop.time() - t0)
-        if any(s.pending_garbage() for s in w.sessions.values()):
+        if any(s.pending_garbage() for s in w.sessions.values() if not getattr(s, "pop3", False)):
             self.fail("C07.incomplete-response", {}, None, None)
         # observation (sequential, unrecorded)
         final_lists = {}
-        alive = [sn for sn in cmds if not w.sessions[sn].task.done()]
+        alive = [sn for sn in cmds if not w.sessions[sn].task.done() and not getattr(w.sessions[sn], "pop3", False)]
         obs = h.observe_store("O")
         for name, rec in obs.items():
             if rec.get("exists"):
@@ -286,6 +326,7 @@ class SRun:
                 sel0 = model0.session(sn).selected
                 results[key] = ("OK", tuple(c or uid2cid.get((sel0, u), f"uid{u}") for _, u, c in val[1]))
         sig_obs = (results, final_lists)
+        self.env_fired = [e for e, f in zip(env_events, env_fired) if f]
         return npoints, sig_obs, model0
 
     def close(self):
@@ -306,9 +347,11 @@ def normalise_model_sig(res_items, cmds):
     return out
 
 
-def judge(scn, sig_obs, model0):
+def judge(scn, sig_obs, model0, env_fired=()):
     """Is the observed outcome one of the sequential outcomes?  Returns (ok, n_model_outcomes)."""
-    cmds = scn["concurrent"]
+    cmds = dict(scn["concurrent"])
+    if env_fired:
+        cmds["~"] = [dict(e, op="env_" + e["op"]) for e in env_fired]
     results, final_lists = sig_obs
     allowed = linear.outcomes(model0, cmds)
     fin_obs = tuple(sorted(final_lists.items()))
@@ -317,6 +360,8 @@ def judge(scn, sig_obs, model0):
         m = normalise_model_sig(res_items, cmds)
         ok = True
         for key, val in results.items():
+            if key.startswith("~"):
+                continue
             mv = m.get(key)
             if mv is None:
                 ok = False
@@ -349,7 +394,7 @@ def run_one(unit):
     sr = SRun(scn, prefix)
     try:
         npoints, sig, model0 = sr.run()
-        ok, nmodel = judge(scn, sig, model0)
+        ok, nmodel = judge(scn, sig, model0, getattr(sr, "env_fired", ()))
         if not ok:
             sr.fail("C10.not-linearizable", {"cmds": [f"{sn}:{ev['op']}" for sn, evs in sorted(scn["concurrent"].items()) for ev in evs]},
                     f"one of {nmodel} sequential outcomes", {"results": sig[0], "final": {k: list(v) for k, v in sig[1].items()}})
